@@ -294,7 +294,17 @@ impl C12 {
         cfg.policy.fee_velocity_control = VelocityControlSpec { limit_msat: fee_limit, interval_type: itype };
         cfg.policy.max_invoices = 10_000;
         cfg.now_secs = 1_700_000_123;
-        let mut w = World::new(cfg);
+        // every second limit value: the node is built with the on-chain validator factory wrapped
+        // around the simple one (the shape vlsd uses); the configured limits must still apply
+        let mut w = if limit_sat % 2 == 1 {
+            st.class("node_with_onchain_validator_factory");
+            let inner = lightning_signer::policy::simple_validator::SimpleValidatorFactory::new_with_policy(cfg.policy.clone());
+            let vf: lightning_signer::prelude::Arc<dyn lightning_signer::policy::validator::ValidatorFactory> =
+                lightning_signer::prelude::Arc::new(lightning_signer::policy::onchain_validator::OnchainValidatorFactory::new_with_simple_factory(inner));
+            World::new_with_factory(cfg, vf)
+        } else {
+            World::new(cfg)
+        };
         let mut pay = Ledger { b: b as u64, n: n as u64, limit, approved: vec![] };
         let mut fee = Ledger { b: b as u64, n: n as u64, limit: fee_limit, approved: vec![] };
         let payee = PublicKey::from_secret_key(&w.secp, &SecretKey::from_slice(&[5u8; 32]).unwrap());
